@@ -88,13 +88,14 @@ def mechanism (notes : List String) : String :=
     | "inter-no-ignored" => "LU-I intersection ignores a NoRelationship entry next to a wildcard"
     | "inter-excluded-has" => "LU-I intersection drops a user listed in some excludedUsers although every operand found it"
     | "bag-no-vs-wildcard" => "LU-J a NoRelationship entry of one dispatch hides a user that another dispatch covers by its wildcard"
+    | "DEVIATES" => "the implementation's answer is not an answer of the model (not one of the known mechanisms)"
     | other => other))
 
 /-- the property on one observed result list; `none` = holds -/
 def propertyViolation (w : World) (f : Filter) (us : List String) (notes : List String) : Option String :=
   if dup us then some "an entry is returned twice"
   else match us.find? (fun u => !matchesFilter f u) with
-  | some u => some s!"entry {u} does not match the user filter: {mechanism (notes.filter (· = "filter-rel"))}"
+  | some u => some s!"entry {u} does not match the user filter: {mechanism (notes.filter (fun n => n = "filter-rel" || n = "DEVIATES"))}"
   | none =>
     match us.find? (fun u => refClass w u = "F") with
     | some u => some s!"returned {u} does not hold the relation: {mechanism notes}"
@@ -121,18 +122,19 @@ def step (c impl : String) : String :=
     let allowed := (renderAnswer a1 ++ renderAnswer a2).eraseDups
     let clashy := notes.contains "status-clash"
     let modelErr := !(a1.errs ++ a2.errs).isEmpty
+    let exact := outs.all (fun o => allowed.contains o)
+    let conforms := exact || clashy
     -- 2. the property
     let viol : Option String :=
       if !cs.stratified then none
       else outs.findSome? (fun o => match parseOut o with
         | none => none
-        | some us => propertyViolation w f us notes)
+        | some us => propertyViolation w f us (if conforms then notes else ["DEVIATES"]))
     match viol with
     | some why => specViol (if outs.length > 1 then why ++ " [answers differ between runs: " ++ impl ++ "]" else why)
     | none =>
       -- 1. correspondence
-      let exact := outs.all (fun o => allowed.contains o)
-      if !exact && !clashy then modelDiff (" | ".intercalate allowed ++ " notes=" ++ ",".intercalate notes)
+      if !conforms then modelDiff (" | ".intercalate allowed ++ " notes=" ++ ",".intercalate notes)
       else if outs.length > 1 && !clashy && !modelErr then
         modelDiff ("deterministic " ++ " | ".intercalate allowed)
       else
